@@ -1013,10 +1013,23 @@ dec_validate_replay (munge_cred_t c)
  */
     m_msg_t  m = c->msg;
     int      rc;
+    time_t   now;
 
     rc = replay_insert (c);
 
     if (rc == 0) {
+        /*  The time check used the time at which this request was received.
+         *    If the credential has expired since then, replay_purge() may
+         *    already have discarded the record of an earlier decode; the
+         *    successful insert then says nothing about a replay.
+         */
+        if (time (&now) == (time_t) -1) {
+            return (m_msg_set_err (m, EMUNGE_SNAFU,
+                strdup ("Failed to query current time")));
+        }
+        if (now > (time_t) m->time0 + m->ttl) {
+            return (m_msg_set_err (m, EMUNGE_CRED_EXPIRED, NULL));
+        }
         c->is_replay_new = 1;
         return (0);
     }
